@@ -1,9 +1,9 @@
 PROP = dict(
     id="C14",
-    lean_modules=["TongoProofs.C14"],
-    gen=["WalletConsts"],
+    lean_modules=["TongoProofs.C14", "TongoProofs.C14Tlb"],
+    gen=["WalletConsts", "TlbTypes"],
     # the model IS the specification: bodies, envelope, digest, decoder outputs and verifier verdicts are bit-exact
-    spec_ops=("m.body", "m.raw", "m.decode", "m.verify", "prim.sha256"),
+    spec_ops=("m.body", "m.bodyx", "m.extn", "m.raw", "m.decode", "m.verify", "prim.sha256"),
     rule="every sending version (V3R1, V3R2, V4R1, V4R2, V5Beta, V5R1, HighLoadV2R2) x random Ed25519 keys x workchain / "
          "sub-wallet / network options x seqno and valid-until in {0,1,2^31,2^32-1,random} x 0..4 messages mostly, 5/17/100/"
          "max-1/max for the large-capacity versions, max+1 and max+50 for the limit; messages are either marshalled "
@@ -16,8 +16,14 @@ PROP = dict(
          "decoded fields equal the requested ones, over-limit sends refused; send modes 0,1,2,3,64,128,255 and random on "
          "every construction path (Send via Sendable.ToInternal, CreateMessageBody, RawSend with RawMessage): extracted modes = "
          "REQUESTED modes (the mode ToInternal returns is under test, not trusted). "
+         "v5r1 extended actions: 0..255 send actions together with nil / 1..4 extended actions (add / remove extension with "
+         "addr_std in workchains 0,-1,1,127,-128 or addr_none, set-signature-allowed), both opcodes, through "
+         "CreateSignedMsgBodyCell; the ExtensionAction form marshalled from wallet.MessageV5 (with / without send actions); "
+         "both decoded and verified on both sides; "
          "non-trivial = distinct (version, key, message count, seqno, valid-until) case",
     trusted_base=[
+        "translator X1 (TlbTypes): the wallet struct descriptors are regenerated from wallet/*.go on every run; the hand-written "
+        "layouts are proved equal to Tlb.encode on them (TongoProofs/C14Tlb.lean), so a field swap / width change breaks an obligation",
         "the highload dictionary is the shared model lean/TongoModel/Hashmap.lean (C05: entries ordered by key bits, canonical "
         "shortest edge labels); its round trip is used through the C05 theorems encode_sorted_tree / decode_any_valid",
         "translator WalletConsts (harness/cmd/extract, go/ast): DefaultSubWallet, MainnetGlobalID, the v5 opcodes, the action tag, the Version enumeration and maxMessageNumber() literals are re-read from wallet/*.go on every run and stated as decide-d obligations against the model (lean/TongoGen/WalletConsts.lean)",
@@ -35,7 +41,10 @@ PROP = dict(
         "real Ed25519 (foreign keys, bit flips) on every run",
         "signature correctness (premise of verify_own_key)",
         "tlb.Message decoding is modelled on the ext_in_msg_info fragment (other message kinds and state-inits with "
-        "libraries answer 'unmodelled' and are never generated); exotic structure cells are outside the model",
+        "libraries answer 'unmodelled' and are never generated); exotic structure cells are outside the model; extended "
+        "actions carry addr_none / addr_std without anycast (addr_extern, addr_var, anycast answer 'unmodelled')",
+        "MessageV5.RawMessages() has no case for ExtensionAction: ExtractRawMessages returns no messages for that form even "
+        "when it carries send actions; modelled as the code is (decode_extension_action), not judged",
         "internal messages are arbitrary cells for the model; their own TL-B marshalling (wallet.Message.ToInternal) is "
         "exercised by the harness but belongs to C03/C04",
     ],
